@@ -834,6 +834,14 @@ def compute_kek(
         # We can derive the shared secret based on the DH formula.
         # s = y**x mod p
         dh_pub_key = FFCDHKey.unpack(public_key)
+        if secret_parameters:
+            # The peer's value is only meaningful in the group of the root key.
+            dh_params = FFCDHParameters.unpack(secret_parameters)
+            if dh_pub_key.field_order != dh_params.field_order or dh_pub_key.generator != dh_params.generator:
+                raise ValueError("DH public key does not use the group parameters of the root key")
+        if not 1 < dh_pub_key.public_key < dh_pub_key.field_order - 1:
+            # 0, 1 and p - 1 give a shared secret anyone can predict.
+            raise ValueError("DH public key value is out of range")
         shared_secret_int = pow(
             dh_pub_key.public_key,
             int.from_bytes(private_key, byteorder="big"),
